@@ -235,3 +235,77 @@ package resolver
 //@   abstract
 //@   nosafety all pre
 //@   assert at call (*middleware/resolver.Resolver).lookup#1: arg3 == leaderReq && arg4 == servers
+//@
+//@ # ---- C09: RFC 5011 trust-anchor maintenance.
+//@ # a revocation is recognised only for the SAME key material with exactly the REVOKE bit toggled
+//@ func dnskeyMaterialFP
+//@   modifies nothing
+//@
+//@ func sameKeyExceptRevoke
+//@   modifies nothing
+//@   ensures result == (currentKey != nil && revokedKey != nil && currentKey.Algorithm == revokedKey.Algorithm && currentKey.Protocol == revokedKey.Protocol && currentKey.PublicKey == revokedKey.PublicKey && currentKey.Flags == revokedKey.Flags ^ 128)
+//@
+//@ # authentication of a fetched DNSKEY set: full authentication only by pass 1 (currently trusted, non-revoked keys);
+//@ # pass 2 (revoked forms of trusted keys, matched by material) yields revocation-only authentication; nothing else
+//@ # authenticates; a work-limit error is terminal
+//@ func verifyFetchedKeysWithWork
+//@   abstract
+//@   nosafety all pre
+//@   assert at append#2: lastret("middleware/resolver.sameKeyExceptRevoke") && src[0] == dnskey
+//@   assert at call middleware/resolver/dnssec.VerifyRRSIGWithWork#1: arg1 == currentKeys && arg3 == work
+//@   assert at call middleware/resolver/dnssec.VerifyRRSIGWithWork#2: arg1 == revokedBootstrap && arg3 == work && !lastret("middleware/resolver/dnssec.VerifyRRSIGWithWork#1")
+//@   assert at return#3: result0 && !result1 && result2 == nil && lastret("middleware/resolver/dnssec.VerifyRRSIGWithWork#1")
+//@   assert at return#5: result0 && result1 && result2 == nil && lastret("middleware/resolver/dnssec.VerifyRRSIGWithWork#2") && !lastret("middleware/resolver/dnssec.VerifyRRSIGWithWork#1")
+//@   assert at return#1: !result0 && !result1
+//@   assert at return#2: !result0 && !result1
+//@   assert at return#4: !result0 && !result1
+//@   assert at return#6: !result0 && !result1
+//@   assert at return#7: !result0 && !result1
+//@
+//@ # a revocation counts as self-signed only if the signature check over the fetched set with ONLY the revoked key succeeded
+//@ func stageRevocationSelfSignatures
+//@   abstract
+//@   nosafety all pre
+//@   assert at mapupdate#1: value ==> lastret("middleware/resolver.revocationIsSelfSignedWithWork") && lastret("middleware/resolver.revocationIsSelfSignedWithWork", 1) == nil && lastret("middleware/resolver.sameKeyExceptRevoke")
+//@   assert at call middleware/resolver.revocationIsSelfSignedWithWork#1: arg0 == rrs && arg1 == ta.DNSKey && arg2 == work
+//@
+//@ # state files are replaced atomically: temp file written, synced and closed BEFORE the rename; the directory is synced after it
+//@ func atomicGobWrite
+//@   abstract
+//@   nosafety all pre
+//@   assert at call os.Rename#1: calls("(*encoding/gob.Encoder).Encode") == 1 && calls("(*os.File).Sync") == 1 && calls("(*os.File).Close") == 1 && lastret("(*encoding/gob.Encoder).Encode") == nil && lastret("(*os.File).Sync") == nil && lastret("(*os.File).Close") == nil && arg0 == tmp && arg1 == filename
+//@   assert at call middleware/resolver.syncDir#1: calls("os.Rename") == 1 && lastret("os.Rename") == nil
+//@   assert at return: result == nil ==> calls("os.Rename") == 1 && calls("middleware/resolver.syncDir") == 1
+//@
+//@ # AutoTA (abstracting tier). Live trust set: cleared when the tombstone store is corrupt; pre-fetch publication only
+//@ # when the prior set was non-empty; cleared when a new revocation could be persisted nowhere; otherwise replaced only
+//@ # after at least one durable write, by keys in state Valid or Missing. Tombstones are written before the state file.
+//@ # Transitions: a key is revoked only with matching material and a staged self-signature, from Valid or Missing;
+//@ # new keys start the add hold-down only under full authentication and only on a free tag; AddPend becomes Valid only
+//@ # under full authentication after more than 720 h; Valid becomes Missing and Missing returns to Valid only under
+//@ # full authentication
+//@ func (*Resolver).AutoTA
+//@   abstract
+//@   nosafety all pre
+//@   assert at store resolver.Resolver.rootKeys#1: len(value) == 0 && lastret("errors.Is")
+//@   assert at store resolver.Resolver.rootKeys#2: lastret("(*middleware/resolver.Resolver).hasTrustAnchors") && value == candidate
+//@   assert at store resolver.Resolver.rootKeys#3: len(value) == 0 && lastret("middleware/resolver.writeTombstones") != nil && lastret("middleware/resolver.writeToTAFile") != nil && newRevocation
+//@   assert at store resolver.Resolver.rootKeys#4: (lastret("middleware/resolver.writeTombstones") == nil || lastret("middleware/resolver.writeToTAFile") == nil) && value == finalRootKeys
+//@   assert at call middleware/resolver.writeToTAFile#1: calls("middleware/resolver.writeTombstones") == 1 && arg1 == kskCurrent
+//@   assert at call middleware/resolver.writeTombstones#1: arg1 == tombstones
+//@   assert at call middleware/resolver.verifyFetchedKeysWithWork#1: arg0 == candidate && arg1 == resp.Answer
+//@   assert at store resolver.TrustAnchor.State#5: value == StateRevoked && lastret("middleware/resolver.sameKeyExceptRevoke") && revocationSelfSigned[tag]
+//@   assert at store resolver.TrustAnchor.State#6: value == StateAddPend && !revocationOnly && existing == nil
+//@   assert at store resolver.TrustAnchor.State#7: value == StateMissing && !revocationOnly && ta.State == StateValid
+//@   assert at store resolver.TrustAnchor.State#8: value == StateValid && !revocationOnly && ta.State == StateAddPend && lastret("time.Since") > 2592000000000000
+//@   assert at store resolver.TrustAnchor.State#9: value == StateValid && !revocationOnly && ta.State == StateMissing
+//@
+//@ # the revocation store reads as empty ONLY when the file does not exist; bytes that do not decode are corruption
+//@ # (an error the caller fails closed on), never an empty store
+//@ func readTombstones
+//@   abstract
+//@   nosafety all pre
+//@   assert at return#1: result1 == nil && lastret("os.IsNotExist") && lastret("os.Open", 1) != nil
+//@   assert at return#2: result1 != nil && result0 == nil
+//@   assert at return#3: result1 != nil && result0 == nil && lastret("(*encoding/gob.Decoder).Decode") != nil
+//@   assert at return#4: result1 == nil && lastret("(*encoding/gob.Decoder).Decode") == nil && lastret("os.Open", 1) == nil
